@@ -1,6 +1,6 @@
 import Librfn.Driver.Util
-import Librfn.Gen.Bitops
-import Librfn.Gen.Constexpr
+import Librfn.Gen.BitopsSeq
+import Librfn.Gen.ConstexprSeq
 /-! Evaluates the *generated* bit helpers (tie T, C16) so that the translator's output can be compared with the
 compiled C on the same inputs.  One driver (and one executable) per generated unit group: a change that breaks the
 translation of one unit must not take the other properties' model executables down with it. -/
@@ -9,12 +9,12 @@ open Librfn.Driver Librfn.Gen
 
 def step (_ : Unit) (w : List String) : Unit × List String :=
   match w with
-  | ["bitcnt", x] => ((), [toString (Bitops.bitcnt (BitVec.ofNat _ (nat! x))).toInt])
-  | ["clz", x] => ((), [toString (Bitops.clz (BitVec.ofNat _ (nat! x))).toInt])
-  | ["ctz", x] => ((), [toString (Bitops.ctz (BitVec.ofNat _ (nat! x))).toInt])
-  | ["ilog2", x] => ((), [toString (Bitops.ilog2 (BitVec.ofNat _ (nat! x))).toInt])
-  | ["const_pop", x] => ((), [toString (Constexpr.w_const_pop (BitVec.ofNat _ (nat! x))).toInt])
-  | ["const_lssb", x] => ((), [toString (Constexpr.w_const_lssb (BitVec.ofNat _ (nat! x))).toInt])
+  | ["bitcnt", x] => ((), [toString (BitopsSeq.bitcnt (BitVec.ofNat _ (nat! x))).ret.toInt])
+  | ["clz", x] => ((), [toString (BitopsSeq.clz (BitVec.ofNat _ (nat! x))).ret.toInt])
+  | ["ctz", x] => ((), [toString (BitopsSeq.ctz (BitVec.ofNat _ (nat! x))).ret.toInt])
+  | ["ilog2", x] => ((), [toString (BitopsSeq.ilog2 (BitVec.ofNat _ (nat! x))).ret.toInt])
+  | ["const_pop", x] => ((), [toString (ConstexprSeq.w_const_pop (BitVec.ofNat _ (nat! x))).ret.toInt])
+  | ["const_lssb", x] => ((), [toString (ConstexprSeq.w_const_lssb (BitVec.ofNat _ (nat! x))).ret.toInt])
   | _ => ((), ["bad-op"])
 
 def main (_ : List String) : IO UInt32 := runLines () step
